@@ -1,6 +1,6 @@
 """C18 — floats are printed shortest-round-trip in ECMAScript format (DESIGN §5.18: R1, R2)."""
 from ..e2.checklib import Lemma, run_lemmas
-from ..e2.intr_float import FloatIntrinsics, RyuStubIntrinsics
+from ..e2.intr_float import FloatIntrinsics, RyuStubIntrinsics, RyuHelperIntrinsics
 from ..e2 import run as e2run
 
 FR = ["zz_verif_tape.go", "zz_verif_r.go"]
@@ -21,6 +21,14 @@ def lemmas(tier):
               bound="all finite float64; digit generator contract: 0 <= nd <= 17 digits '0'..'9', -5 <= dp <= 21 (the range appendFloat uses 'f' for)",
               expect_reach=["R1.formatF"]),
     ]
+    names = ["computeBounds", "mulByLog2Log10/mulByLog10Log2", "divmod1e9", "mult128bitPow10", "divisibleByPower5"]
+    for fn, nm in enumerate(names):
+        ls.append(Lemma("R1f." + nm.split("/")[0], "verifHarness_R1f_Helpers", ["zz_verif_r1f.go"], intr=RyuHelperIntrinsics, stop=STOP_WITH_STRCONV,
+                        splits=[{"fn": fn}], split_depth=(2 if fn in (3, 4) else 0),
+                        opts={"lazy_all": True, "timeout_ms": 30000},
+                        desc="the repository's %s = strconv's, both executed from their real code on arbitrary symbolic arguments%s" % (
+                            nm, " for every q in -348..347 (each power-of-ten table entry)" if fn == 3 else ""),
+                        bound="all argument values in the functions' documented ranges", expect_reach=["R1f.fn"]))
     return ls
 
 
